@@ -10,6 +10,8 @@ fn table() -> Vec<(&'static str, &'static str, RunFn, ReplayFn)> {
     vec![
         ("C04", "exploration", props::c04::run, props::c04::replay),
         ("C09", "exploration", props::c09::run, props::c09::replay),
+        ("C13", "exploration", props::c13::run, props::c13::replay),
+        ("C14", "exploration", props::c14::run, props::c14::replay),
         ("C18", "exploration", props::c18::run, props::c18::replay),
         ("C19", "exploration", props::c19::run, props::c19::replay),
     ]
